@@ -9,6 +9,71 @@ CHECKS = {
          "Every execution is the real run_on over a scripted in-memory transport. All 2^n ways of cutting streams of <= 17/21 command bytes into reads, all <=2/3-cut schedules over handshake+3 commands, <=2 cuts around the 4096/8192 buffer thresholds and <=1/2 cuts around every fragment header of 16-32 MiB payloads are run; the shim's callback log must equal the scripted commands byte for byte and every reply must decode.",
          "Trusted: the harness's transport/decoder (refwire). Bounds: streams longer than 21 bytes are covered up to 3 cuts, multi-megabyte payloads up to 2 cuts near fragment headers; 1-byte reads over 32 MiB are not run.",
          "DESIGN.md §2 C01"),
+ "C02": ("model_checking",
+         "exhaustive enumeration of command histories (depth <= 4/5 over a 42-command alphabet) on the real run_on against a routing reference model",
+         "All command sequences up to the depth over an alphabet with near-miss prefixes, invalid UTF-8, boundary statement ids, edge-decorated schema names and QUIT, plus every USE spelling of the stated grammar, are run pipelined on a real connection; the complete callback log, run_on's result and a strict decode of all replies must equal the routing model.",
+         "Trusted: routing model (a match on the command byte) and refwire. Spellings the property does not define (mixed case) are left out rather than guessed.",
+         "DESIGN.md §2 C02"),
+ "C03": ("model_checking",
+         "exhaustive enumeration of writer-API programs through the typestate automaton (<= 7/10 calls, text+binary, pairs, wide variants) against a reference interpreter and a strict client decoder",
+         "Every complete writer program up to the depth is interpreted by a 30-line reference interpreter into predicted response units and run on the real crate; the strict decoder must see exactly those units, more-results flags, and an unshifted sentinel PING; shape-contradicting programs must be refused at or before the call closing the malformed row and nothing malformed may reach the transport.",
+         "Trusted: the reference interpreter and refwire. Column counts 0/1/2 (and 3/300 for shorter programs); values are small integers and NULL (value fidelity is C06/C07).",
+         "DESIGN.md §2 C03"),
+ "C05": ("model_checking",
+         "exhaustive enumeration request-sequence-id x response-length (1..520 packets) x protocol, fragmented requests, handshake ids, on the real run_on",
+         "Every request id 0..255 with responses of 1 and 4..520 packets (text and binary), a second command with an unrelated id, every handshake id and 2-3-fragment requests around the wrap; every server packet's id must be (last request id + 1 + i) mod 256.",
+         "Trusted: refwire's framer. Quick covers all ids x boundary lengths and boundary ids x all lengths; thorough the full product.",
+         "DESIGN.md §2 C05"),
+ "C10": ("model_checking",
+         "explicit-state model checking: full history tree (depth 4/5) plus BFS over registry-model states with per-transition re-execution of the implementation from two witnesses",
+         "Histories over PREPARE(ok|rejected)/EXECUTE/LONG_DATA/CLOSE on ids 1,2 and a never-prepared id 3: the whole observable trace of each history (callbacks, result, decoded replies) must equal the registry reference model; BFS over model states validates every (state, action) by re-running witness+action on the real crate.",
+         "Trusted: the registry model (a BTreeMap) and refwire. State merging in the BFS assumes hidden state is a function of the model state; this is tested with two witnesses per state and not assumed by the tree.",
+         "DESIGN.md §2 C10"),
+ "C11": ("model_checking",
+         "exhaustive enumeration of handshake responses (all 2^16 capability words x upper words, both layouts, 262 user names x trailers, sequence ids, TLS configured or not, accept/reject, pipelining) on the real run_on",
+         "Each handshake is a full connection; the greeting is decoded by refwire and mysql_common, the gate order (after_authentication exactly once with the exact user bytes before any command; reject => ERR 1045/28000 + the shim's error + no command callback; CLIENT_SSL without TLS => refused before the shim) is checked on every one.",
+         "Trusted: refwire, mysql_common's HandshakePacket. Real TLS handshakes are C18.",
+         "DESIGN.md §2 C11"),
+ "C12": ("model_checking",
+         "stateless exploration of arrival schedules (all batchings x cut sets) with an invariant evaluated at every read() of the real run_on",
+         "For command lists up to 4/5 commands every subset of message boundaries at which the client waits for its replies (lock-step to fully pipelined) and every cut set of <= 2 positions is run; at each read() the flushed output must already hold a complete, strictly decoded reply for every message fully delivered; a read while the waiting client holds back bytes is a hang.",
+         "Trusted: the transport's flushed watermark and refwire. Unflushed bytes are invisible to the simulated client.",
+         "DESIGN.md §2 C12"),
+ "C13": ("model_checking",
+         "exhaustive enumeration kinds x reporting sites x message classes on the real run_on, plus table checks against pinned and independent tables",
+         "Every ErrorKind variant (list regenerated from the tree by build.rs) is reported from 12 sites with 7/8 message classes; the client-decoded ERR must carry exactly (code, SQLSTATE, message) and mysql_common must agree; per variant the code<->kind conversions, the pinned golden table, the mysql client crate's code table and 46 documented anchors are compared.",
+         "Trusted: the table pinned in /verif/data equals MariaDB's published table beyond the anchors and the client crate's codes.",
+         "DESIGN.md §2 C13"),
+ "C14": ("model_checking",
+         "exhaustive enumeration over a boundary lattice of u64 pairs x contexts x protocol, and every zero-column row count 0..300, on the real run_on",
+         "About 190^2 (rows, last_insert_id) pairs across all length-encoded classes in 4 completion contexts, text and binary, and zero-column resultsets of every size up to 300 (plus 65535/65536/70000) built four ways; the OK packet decoded by refwire and by mysql_common must carry exactly the values.",
+         "64-bit components are covered at the boundary lattice (every 2^k, 2^k+-1, class edges), not exhaustively.",
+         "DESIGN.md §2 C14"),
+ "C15": ("model_checking",
+         "exhaustive enumeration of (Rust integer type x column type x signedness x value) at the public to_mysql_bin seam and through write_col; 8/16-bit exhaustive, 32-bit exhaustive in thorough",
+         "For all 12 value sources x 12 column variants every value of the 8/16-bit types, boundary lattices of the wider ones (all 2^32 values of u32/i32 into the 32/64-bit columns in thorough) are encoded by the real encoder and decoded by column width and signedness: accepted => identical number and exact width; contained type => accepted; pointer-sized => accepted iff it fits.",
+         "64-bit domains at boundary lattices. A panic counts as a refusal (tallied).",
+         "DESIGN.md §2 C15"),
+ "C16": ("model_checking",
+         "explicit-state model checking: full history tree (depth 4/5) plus BFS over model states, two statements, bind/reuse/rebind/shim-ignores-params actions",
+         "Histories of executions over two prepared statements where each execution rebinds with one of five type tables (including same type code with the other signedness) or reuses, optionally with a NULL first parameter or a shim that ignores the parameters, and re-prepares; position- and step-dependent values make any stale or foreign type table or shifted offset visible; trace must equal the model.",
+         "Trusted: registry model, refwire encoder. Reuse with no table ever bound ends the history.",
+         "DESIGN.md §2 C16"),
+ "C17": ("model_checking",
+         "explicit-state model checking: full history tree (depth 4/5) plus BFS over model states with pending long data, and a > 32 MiB chunk",
+         "Histories of long-data chunks (empty, 1 and 2 bytes; parameters 0, 1 and out of range) and executions (bind/reuse/NULL) over two statements with CLOSE and re-PREPARE: the value delivered must be the in-order concatenation for that statement and parameter, other parameters keep their inline values, delivery happens once and never to the other statement.",
+         "Pending data capped at 4 bytes per parameter in the BFS (not in the tree). An empty chunk still marks the parameter as long data.",
+         "DESIGN.md §2 C17"),
+ "C19": ("fault_enumeration",
+         "exhaustive fault enumeration over the operation log of each conversation's fault-free run on the real run_on",
+         "For ~50-70 conversations (explicit finish and implicit drops, text/binary, chained results, long data, close, quit, library replies, auth rejection, a shim error per callback; under whole, 1-byte and short reads/writes): end of stream after every byte count, each of 4 error kinds once and persistently at every operation index, a zero-length write at every write. Ok iff fault-free and closed at a boundary; every fault => Err, never a panic; no callback after the failed op; shim error returned unchanged.",
+         "ErrorKind::Interrupted is not injected (std's write_all retries it by contract). Fault points come from the fault-free run of the tree under test.",
+         "DESIGN.md §2 C19"),
+ "C20": ("model_checking",
+         "exhaustive enumeration of short client byte strings, framed payloads, EXECUTE parameter blocks and all single-byte mutations of valid conversations on the real run_on; oracle = no panic, no wedge",
+         "All raw strings <= 5/6 bytes over 13 command/marker bytes (also as the handshake), all framed payloads <= 2/3 bytes over all 256 values, 1.2M structured EXECUTE blocks per parameter count, every single-byte substitution/truncation/deletion/duplication of 5 conversations and 3 handshake forms, fragment-id pairs: run_on must return without panicking within an operation budget.",
+         "Random bytes are not used. The shim reads parameters with into_inner(); panicking From<Value> conversions are the shim author's calls.",
+         "DESIGN.md §2 C20"),
 }
 NOT_YET = {}
 props = [json.loads(l) for l in open('/verif/properties.jsonl')]
